@@ -82,7 +82,15 @@ impl<'a, F: Write + Seek> Chain<'a, F> {
     pub fn set_len(&mut self, new_len: u64) -> io::Result<()> {
         let sector_len = self.allocator.sector_len() as u64;
         let new_num_sectors =
-            ((sector_len + new_len - 1) / sector_len) as usize;
+            new_len / sector_len + u64::from(new_len % sector_len != 0);
+        if new_num_sectors > consts::MAX_REGULAR_SECTOR as u64 {
+            invalid_input!(
+                "Cannot resize chain to {} bytes (more than {} sectors)",
+                new_len,
+                consts::MAX_REGULAR_SECTOR
+            );
+        }
+        let new_num_sectors = new_num_sectors as usize;
         if new_num_sectors == 0 {
             if let Some(&start_sector) = self.sector_ids.first() {
                 self.allocator.free_chain(start_sector)?;
